@@ -34,7 +34,7 @@ fn unit() -> Value {
 fn observe_chunk<T: Obs, V: ExactSizeIterator<Item = T>>(
     run: &Run,
     begin: usize,
-    mut values: V,
+    values: V,
     take: Option<usize>,
     via: u8,
 ) -> Value {
@@ -47,23 +47,26 @@ fn observe_chunk<T: Obs, V: ExactSizeIterator<Item = T>>(
     let mut endnone = false;
     let mut n = 0;
     let mut rest = -1i64;
+    let mut restvals: Vec<Value> = vec![];
+    let mut values = Some(values);
     // a panic while the chunk is consumed or dropped (clone / destructor of an element): report what the
     // caller had already taken, then let the panic continue
     let r = catch_unwind(AssertUnwindSafe(|| {
         while n < cap {
             // the client may take the items out through any method of Iterator
+            let it = values.as_mut().expect("present");
             let item = match via & 3 {
-                1 => counted(|| values.nth(0)),
-                2 => counted(|| values.by_ref().take(1).fold(None, |_, x| Some(x))),
-                3 => counted(|| values.by_ref().find(|_| true)),
-                _ => counted(|| values.next()),
+                1 => counted(|| it.nth(0)),
+                2 => counted(|| it.by_ref().take(1).fold(None, |_, x| Some(x))),
+                3 => counted(|| it.by_ref().find(|_| true)),
+                _ => counted(|| it.next()),
             };
             match item {
                 Some(x) => {
                     let (v, p) = obs_item(run, x);
                     vals.push(v);
                     pidxs.push(p);
-                    lens.push(w(counted(|| values.len())));
+                    lens.push(w(counted(|| it.len())));
                     n += 1;
                 }
                 None => {
@@ -72,26 +75,47 @@ fn observe_chunk<T: Obs, V: ExactSizeIterator<Item = T>>(
                 }
             }
         }
-        // ... and may get rid of the rest through any of them, too
+        // ... and may get rid of the rest through any of them, too (by value where the method takes `self`, so
+        // that a specialisation of fold / count / last of the chunk iterator itself is what runs)
         if !endnone && cap < TAKE_CAP && via & 4 != 0 {
             match via & 3 {
-                1 => {
-                    if let Some(x) = counted(|| values.nth(usize::MAX)) {
-                        vals.push(obs_item(run, x).0);       // there is no such item: reported, the monitor rejects it
+                0 => {
+                    let it = values.take().expect("present");
+                    let got = counted(|| it.fold(Vec::new(), |mut a, x| {
+                        a.push(x);
+                        a
+                    }));
+                    // the client looks at them and drops them, in order (what dropping the chunk would have done)
+                    for x in got {
+                        restvals.push(x.obs_dropped(
+                            run.src_base.load(Ordering::Relaxed),
+                            run.src_stride.load(Ordering::Relaxed),
+                            run.src_len.load(Ordering::Relaxed),
+                        ));
                     }
-                    rest = counted(|| values.len()) as i64 + (alen - n) as i64;
+                    rest = restvals.len() as i64;
                 }
-                2 => rest = counted(|| values.by_ref().count()) as i64,
-                3 => {
-                    let left = counted(|| values.len());
-                    let last = counted(|| values.by_ref().last());
+                1 => {
+                    let it = values.as_mut().expect("present");
+                    if let Some(x) = counted(|| it.nth(usize::MAX)) {
+                        vals.push(obs_item(run, x).0); // there is no such item: reported, the monitor rejects it
+                    }
+                    rest = counted(|| it.len()) as i64 + alen.saturating_sub(n) as i64;
+                }
+                2 => {
+                    let it = values.take().expect("present");
+                    rest = counted(|| it.count()) as i64;
+                }
+                _ => {
+                    let it = values.take().expect("present");
+                    let left = counted(|| it.len());
+                    let last = counted(|| it.last());
                     rest = if last.is_some() == (left > 0) { left as i64 } else { -2 };
                     counted(|| drop(last));
                 }
-                _ => {}
             }
         }
-        counted(|| drop(values));
+        counted(|| drop(values.take()));
     }));
     if let Err(p) = r {
         if !p.is::<Poison>() {
@@ -99,7 +123,7 @@ fn observe_chunk<T: Obs, V: ExactSizeIterator<Item = T>>(
         }
         resume_unwind(p);
     }
-    json!({"k":"chunk","b":w(begin),"alen":w(alen),"vals":vals,"pidx":pidxs,"lens":lens,"endnone":endnone,"rest":rest})
+    json!({"k":"chunk","b":w(begin),"alen":w(alen),"vals":vals,"pidx":pidxs,"lens":lens,"endnone":endnone,"rest":rest,"restvals":restvals})
 }
 
 fn visit(run: &Run, idx: i64, idxw: Option<usize>, v: Value, p: i64) {
